@@ -8,7 +8,7 @@ Open Scope Z_scope.
 
 (* a dialect class as the record of the four attributes the code reads (Model/Eui.v dialect); the projections under names that
    no Python local can shadow *)
-Definition dialect_t : Type := Eui.dialect.
+Notation dialect_t := Eui.dialect (only parsing).
 Definition mk_dialect (ws nw : Z) (sep fmt : string) : dialect_t :=
   {| Eui.word_size := ws; Eui.num_words := nw; Eui.word_sep := sep; Eui.word_fmt := fmt |}.
 Definition d_word_size (d : dialect_t) : Z := Eui.word_size d.
